@@ -57,6 +57,9 @@ Inductive subtable :=
          (m : list (list (vrec * option vrec)))           (* GPOS 2.2 *)
 | SMarkBase (marks : list (N * (nat * (Z * Z))))
             (bases : list (N * list anchor))              (* GPOS 4.1 *)
+| SMarkMark (marks1 : list (N * (nat * (Z * Z))))
+            (marks2 : list (N * list anchor))             (* GPOS 6.1 *)
+| SRevChain (m : list (N * N)) (back look : list (list N)) (* GSUB 8.1 *)
 | SUnsupported.                                           (* anything else *)
 
 Record lookup := mkLookup { lk_flags : N; lk_mfs : N; lk_subs : list subtable }.
@@ -288,6 +291,17 @@ Definition is_mark (gd : option gdef) (g : N) : bool :=
   | Some d => N.eqb (class_of (gd_class d) g) c06_GlyphClassMark
   end.
 
+(* GPOS 6.1: do the specification (nearest preceding kept glyph, at index d of
+   the reversed prefix) and the implementation (nearest preceding glyph with a
+   mark2 record, at distance de) look at the same glyph? *)
+Definition mm_same {V} (spec : option (glyph * list glyph * nat)) (impl : option (V * nat)) : bool :=
+  match spec, impl with
+  | Some (_, _, d), Some (_, de) => S d =? de
+  | Some _, None => true      (* the preceding glyph has no mark2 record: no attachment either way *)
+  | None, None => true
+  | None, Some _ => false
+  end.
+
 (* result: the effect and whether it is inside the modelled domain *)
 Definition simple_effect (gd : option gdef) (kp : N -> bool) (seq : list glyph) (a b : nat)
            (sub : subtable) : option (effect * bool) :=
@@ -382,6 +396,52 @@ Definition simple_effect (gd : option gdef) (kp : N -> bool) (seq : list glyph) 
           end
         end
       end
+    | SMarkMark marks1 marks2 =>
+      (* mark-to-mark: mark2 is the glyph preceding the mark under the lookup
+         flags (the nearest preceding kept glyph); it must have a mark2
+         record with an anchor for the mark's class.  The mark is placed
+         relative to mark2: mark2's own offset + anchor difference - the
+         advances from mark2 up to the mark.
+         The implementation instead takes the nearest preceding glyph with a
+         mark2 record whatever the flags say, and drops mark2's offset (open
+         finding c06-gpos6-markmark); inputs where that makes a difference are
+         outside the domain: mm_same / mark2 offsets zero. *)
+      match assoc g marks1 with
+      | None => None
+      | Some (cls, (mx, my)) =>
+        let prefix := rev (firstn a seq) in
+        let spec := next_kept kp prefix 0 in
+        let impl := find_base marks2 prefix 1 in
+        if negb (mm_same spec impl) then Some (ESet [(a, g0)] (S a), false) else
+        match spec with
+        | None => None
+        | Some (g2, _, d) =>
+          match assoc (gid g2) marks2 with
+          | None => None
+          | Some anchors =>
+            match nth_error anchors cls with
+            | Some (Some (bx, byy)) =>
+              let g' := mkG g (gtext g0)
+                            (gx g2 + (bx - mx - sum_adv (slice seq (a - S d) a)))%Z
+                            (gy g2 + (byy - my))%Z (gadv g0) in
+              Some (ESet [(a, g')] (S a),
+                    glyph_fits g' && Z.eqb (gx g2) 0 && Z.eqb (gy g2) 0)
+            | _ => None
+            end
+          end
+        end
+      end
+    | SRevChain m back look =>
+      (* reverse chaining single substitution: one input glyph, backtrack
+         before it (closest first), lookahead behind it, anywhere in the
+         sequence *)
+      match assoc g m with
+      | None => None
+      | Some h =>
+        if match_ctx kp (map PCov back) (rev (firstn a seq))
+           && match_ctx kp (map PCov look) (skipn (S a) seq)
+        then Some (ESet [(a, set_gid h g0)] (S a), true) else None
+      end
     | _ => None
     end
   end.
@@ -452,6 +512,17 @@ Definition apply_effect (e : effect) (s : st) : st * nat :=
   end.
 
 (* ---------------------------------------------------------- the engine *)
+
+Fixpoint list_eqb {A} (eq : A -> A -> bool) (l1 l2 : list A) : bool :=
+  match l1, l2 with
+  | [], [] => true
+  | x :: l1', y :: l2' => eq x y && list_eqb eq l1' l2'
+  | _, _ => false
+  end.
+Definition glyph_eqb (g h : glyph) : bool :=
+  N.eqb (gid g) (gid h) && list_eqb N.eqb (gtext g) (gtext h) &&
+  Z.eqb (gx g) (gx h) && Z.eqb (gy g) (gy h) && Z.eqb (gadv g) (gadv h).
+Definition seq_eqb (l1 l2 : list glyph) : bool := list_eqb glyph_eqb l1 l2.
 
 Definition size_cap : nat := 1024.
 
@@ -564,10 +635,33 @@ Fixpoint scan (lk : lookup) (fuel r : nat) (seq : list glyph) (ok : bool) : list
     end
   end.
 
+(* GSUB 8.1 lookups are processed from the END of the sequence (OpenType:
+   "processing of input glyph sequences goes from end to start"): positions
+   p-1, p-2, ..., 0.  A substitution never changes the length. *)
+Fixpoint rscan (lk : lookup) (p : nat) (seq : list glyph) : list glyph :=
+  match p with
+  | O => seq
+  | S p' => match step lk p' seq with (seq', _, _) => rscan lk p' seq' end
+  end.
+
+(* a lookup is a reverse chaining lookup when all its subtables are GSUB 8.1 *)
+Definition is_reverse (lk : lookup) : bool :=
+  negb (length (lk_subs lk) =? 0) &&
+  forallb (fun sub => match sub with SRevChain _ _ _ => true | _ => false end) (lk_subs lk).
+
+(* The implementation applies GSUB 8.1 in forward order (a documented TODO);
+   the two orders differ when a substituted glyph is context of another
+   substitution.  Inside the domain: the inputs on which the forward scan
+   gives the same result as the reverse scan. *)
 Definition apply_lookup (acc : list glyph * bool) (li : nat) : list glyph * bool :=
   match nth_error ll li with
   | None => acc
-  | Some lk => scan lk (length (fst acc)) (length (fst acc)) (fst acc) (snd acc)
+  | Some lk =>
+    if is_reverse lk then
+      let r := rscan lk (length (fst acc)) (fst acc) in
+      let f := fst (scan lk (length (fst acc)) (length (fst acc)) (fst acc) true) in
+      (r, snd acc && seq_eqb r f)
+    else scan lk (length (fst acc)) (length (fst acc)) (fst acc) (snd acc)
   end.
 
 Definition R_run (order : list nat) (seq : list glyph) : list glyph * bool :=
@@ -610,11 +704,20 @@ Definition sub_static (sub : subtable) : bool :=
   | SMarkBase marks bases =>
     nodupN (keys marks) && nodupN (keys bases) &&
     forallb (fun mk => forallb (fun bs => fst (snd mk) <? length (snd bs)) bases) marks
+  | SMarkMark marks1 marks2 =>
+    nodupN (keys marks1) && nodupN (keys marks2) &&
+    forallb (fun mk => forallb (fun m2 => fst (snd mk) <? length (snd m2)) marks2) marks1
+  | SRevChain m _ _ => nodupN (keys m)
   | SUnsupported => false
   end.
 
+Definition is_revchain (sub : subtable) : bool :=
+  match sub with SRevChain _ _ _ => true | _ => false end.
+
 Definition lookup_static (gd : option gdef) (lk : lookup) : bool :=
   forallb sub_static (lk_subs lk) &&
+  (* GSUB 8.1 subtables are not mixed with other subtables in one lookup *)
+  (forallb is_revchain (lk_subs lk) || forallb (fun sub => negb (is_revchain sub)) (lk_subs lk)) &&
   match gd with
   | None => true
   | Some d =>
